@@ -80,6 +80,17 @@ type Finding struct {
 	Open     bool
 }
 
+// Has reports whether the finding is listed for property prop (the property field may be a
+// comma-separated list when one defect shows through several properties).
+func (f Finding) Has(prop string) bool {
+	for _, p := range strings.Split(f.Property, ",") {
+		if p == prop {
+			return true
+		}
+	}
+	return false
+}
+
 var (
 	kfOnce sync.Once
 	kfAll  []Finding
@@ -133,7 +144,7 @@ func loadKF() {
 func KFOpen(prop, id string) bool {
 	kfOnce.Do(loadKF)
 	for _, f := range kfAll {
-		if f.Open && f.Property == prop && f.ID == id {
+		if f.Open && f.Has(prop) && f.ID == id {
 			return true
 		}
 	}
@@ -144,7 +155,7 @@ func KFList(prop string) []Finding {
 	kfOnce.Do(loadKF)
 	var out []Finding
 	for _, f := range kfAll {
-		if f.Property == prop {
+		if f.Has(prop) {
 			out = append(out, f)
 		}
 	}
